@@ -17,8 +17,8 @@ var minOblFloor = map[string]int{
 	"C13": 24, // enumerated: cache inventory
 	"C14": 59, "C15": 18, "C16": 16, "C17": 30, "C18": 23, "C19": 38, "C20": 20, "C21": 29, "C23": 24, "C24": 39, "C25": 40,
 	"C26": 24,
-	"C27": 8, // enumerated: loops in the arithmetic closure
-	"C28": 44, "C30": 17, "C31": 5, "C32": 45, "C33": 22, "C34": 12, "C35": 39, "C36": 34, "C37": 6,
+	"C27": 10, // enumerated: loops in the arithmetic closure
+	"C28": 44, "C30": 21, "C31": 5, "C32": 45, "C33": 22, "C34": 17, "C35": 39, "C36": 34, "C37": 6,
 	"C38": 40, // enumerated: GetSignBytes implementations
 	"C39": 13, "C40": 18, "C42": 39, "C43": 32,
 }
